@@ -188,6 +188,12 @@ def http_patterns(ctx):
 
         @srpc(Unicode, _returns=Integer, _in_message_name='{urn:other}look', _patterns=[HttpPattern('/lookup/<k>')])
         def m9(k): ran.append('m9'); return 1
+
+        @srpc(_returns=Integer, _patterns=[HttpPattern('/get.user')])
+        def m10(): ran.append('m10'); return 1
+
+        @srpc(Unicode, _returns=Integer, _patterns=[HttpPattern('/a+b/<x>')])
+        def m11(x): ran.append('m11'); return 1
     try:
         w = WsgiApplication(Application([S], 'tns', in_protocol=HttpRpc(), out_protocol=JsonDocument()))
     except Exception as e:
